@@ -1,5 +1,6 @@
 import LcmModel.Solve
 import LcmModel.Sim
+import LcmModel.Diag
 import LcmModel.ArgmaxND
 import LcmModel.Kwargs
 import LcmModel.GridsPy
@@ -143,7 +144,8 @@ def handle (j : Json) : Except String Json := do
     let P ← parseParams (← j.getObjVal? "params")
     let shift := (j.getObjValAs? Bool "shift").toOption.getD true
     let V := solve m P shift
-    return Json.mkObj [("ok", Json.arr (V.map tensorJson).toArray)]
+    let diag := if (j.getObjValAs? Bool "diag").toOption.getD true then solveDiag m P shift else []
+    return Json.mkObj [("ok", Json.mkObj [("V", Json.arr (V.map tensorJson).toArray), ("undef", toJson diag)])]
   | "simulate" =>
     let m ← parseModel (← j.getObjVal? "model")
     let P ← parseParams (← j.getObjVal? "params")
